@@ -115,12 +115,18 @@ type modC48 struct {
 	calls   *[]int
 }
 
-func (mo *modC48) onSession(s *bfe_basic.Session) int { *mo.calls = append(*mo.calls, mo.id); return mo.verdict }
+func (mo *modC48) onSession(s *bfe_basic.Session) int {
+	*mo.calls = append(*mo.calls, mo.id)
+	return mo.verdict
+}
 func (mo *modC48) onRequest(r *bfe_basic.Request) (int, *bfe_http.Response) {
 	*mo.calls = append(*mo.calls, mo.id)
 	return mo.verdict, mo.resp
 }
-func (mo *modC48) onForward(r *bfe_basic.Request) int { *mo.calls = append(*mo.calls, mo.id); return mo.verdict }
+func (mo *modC48) onForward(r *bfe_basic.Request) int {
+	*mo.calls = append(*mo.calls, mo.id)
+	return mo.verdict
+}
 func (mo *modC48) onResponse(r *bfe_basic.Request, res *bfe_http.Response) int {
 	*mo.calls = append(*mo.calls, mo.id)
 	return mo.verdict
